@@ -319,6 +319,7 @@ def run(c):
     except Exception as e:
         c.obligation("translator: behaviour table of _apply_default_time_dimensions regenerated", False, "translator", repr(e)[-900:])
     c.trusted.append("translator/pyinterp.py + gen_timedim.py (fail-closed definitional interpreter; validated against CPython each run)")
+    lib.regen_small(c, "_parse_dimension_refs")
     c.build_props()
     n_pts, _ = c09.calendar_tie(c, 2000 if c.tier == "quick" else 40000)
     if c.tier == "thorough":
